@@ -9,6 +9,7 @@ if sel and sel[0] == "--table": # markdown table from the recorded results, noth
     for d in sorted(glob.glob(os.path.join(HERE, "seeded", "*", "meta.json"))):
         m = json.load(open(d)); cb = m.get("caught_by") or {}
         txt = "; ".join("%s: %s" % (p, ", ".join("`%s`" % k for k in v["keys"][:2]) if v["keys"] else "not caught") for p, v in cb.items()) or "(not run yet)"
+        for p, v in (m.get("caught_by_thorough") or {}).items(): txt += "; thorough tier of %s: %s" % (p, ", ".join("`%s`" % k for k in v["keys"][:2]))
         print("| %s | %s | %s | %s |" % (m["id"], m["property"], m["needs_to_manifest"].replace("|", "/"), txt))
     sys.exit(0)
 rows = []
